@@ -17,6 +17,8 @@ type Assertion struct {
 	Real bool // depends on the A-REAL idealisation
 	FromObl string // the obligation whose goal this assumption restates
 	NeedTag string // only visible to obligations carrying this tag
+	HasPred bool   // join definition for the edge from top-frame block Pred
+	Pred    int
 }
 
 // Obligation is one proof goal.
@@ -42,6 +44,8 @@ type Obligation struct {
 	NHyp       int
 	Output     string
 	ExpectFail bool // vacuity probes: goal "false" must NOT be provable
+	Top        int  // top-frame block where the obligation arises (-1: not tied to one block)
+	NoAssume   bool // end-of-path obligation: nothing later depends on it, so it is not added to the hypotheses
 }
 
 // Ctx is the translation unit for one function under contract (or one lemma).
@@ -91,6 +95,11 @@ type Ctx struct {
 	recSpecs        map[string]*recSpec
 	inputs          *inputDesc
 	effectFreeUsed  map[string]bool
+	ctorDefs        map[string]*Term
+	blockMarks      []blockMark
+	curTop          int
+	curJoinPreds    []int
+	topAnc          map[int]map[int]bool // top-frame block -> set of blocks that can reach it (forward edges)
 	noAssume        map[string]bool // obligations (known findings) whose goals must not be assumed afterwards
 }
 
@@ -119,6 +128,11 @@ func (c *Ctx) resetPass() {
 	c.trustedUsed = map[string]bool{}
 	c.inlined = map[string]bool{}
 	c.effectFreeUsed = map[string]bool{}
+	c.ctorDefs = nil
+	c.blockMarks = nil
+	c.curTop = -1
+	c.curJoinPreds = nil
+	c.topAnc = nil
 	c.usesReal = false
 	c.warnings = nil
 	c.outOfSubset = nil
@@ -208,6 +222,12 @@ func (c *Ctx) define(hint string, t *Term) *Term {
 	}
 	v := c.fresh(hint, t.Sort)
 	c.asserts = append(c.asserts, &Assertion{Seq: c.nextSeq(), Text: tEq(v, t).S, Def: v.S})
+	if strings.HasPrefix(t.S, "(mk!") {
+		if c.ctorDefs == nil {
+			c.ctorDefs = map[string]*Term{}
+		}
+		c.ctorDefs[v.S] = t
+	}
 	return v
 }
 
@@ -223,15 +243,50 @@ func (c *Ctx) defGuarded(v *Term, g *Term, t *Term) {
 	c.asserts = append(c.asserts, &Assertion{Seq: c.nextSeq(), Text: tImp(g, tEq(v, t)).S, Def: v.S})
 }
 
+// defGuardedPred is defGuarded for the edge coming from top-frame block pred (path-based slicing can drop it for
+// obligations that this edge cannot reach).
+func (c *Ctx) defGuardedPred(v *Term, g *Term, t *Term, pred int) {
+	c.asserts = append(c.asserts, &Assertion{Seq: c.nextSeq(), Text: tImp(g, tEq(v, t)).S, Def: v.S, HasPred: pred >= 0, Pred: pred})
+}
+
+// markBlock records that assertions created from now on belong to top-frame block idx (-1: none).
+func (c *Ctx) markBlock(idx int) {
+	c.blockMarks = append(c.blockMarks, blockMark{start: len(c.asserts), block: idx})
+	c.curTop = idx
+}
+
+type blockMark struct {
+	start int
+	block int
+}
+
+// topBlockOf returns the top-frame block during whose processing assertion i was created (-1 if none).
+func (c *Ctx) topBlockOf(i int) int {
+	lo, hi := 0, len(c.blockMarks)
+	for lo < hi {
+		m := (lo + hi) / 2
+		if c.blockMarks[m].start <= i {
+			lo = m + 1
+		} else {
+			hi = m
+		}
+	}
+	if lo == 0 {
+		return -1
+	}
+	return c.blockMarks[lo-1].block
+}
+
 func (c *Ctx) oblige(o *Obligation) *Obligation {
 	o.Seq = c.nextSeq()
 	o.Unit = c
+	o.Top = c.curTop
 	if o.Tags == nil {
 		o.Tags = map[string]bool{}
 	}
 	c.obls = append(c.obls, o)
 	// once checked, the fact may be used afterwards
-	if !o.ExpectFail {
+	if !o.ExpectFail && !o.NoAssume {
 		c.asserts = append(c.asserts, &Assertion{Seq: c.nextSeq(), Text: tImp(o.Guard, o.Goal).S, FromObl: o.Name})
 	}
 	return o
@@ -392,7 +447,11 @@ func (c *Ctx) joinStates(guards []*Term, sts []*State) *State {
 		}
 		v := c.fresh(n, c.heapSorts[n])
 		for i, s := range sts {
-			c.defGuarded(v, guards[i], c.heapGet(s, n))
+			pred := -1
+			if i < len(c.curJoinPreds) {
+				pred = c.curJoinPreds[i]
+			}
+			c.defGuardedPred(v, guards[i], c.heapGet(s, n), pred)
 		}
 		out.heap[n] = v
 	}
@@ -531,6 +590,34 @@ func (c *Ctx) mkStruct(t types.Type, fields []*Term) *Term {
 func (c *Ctx) structField(t types.Type, v *Term, i int) *Term {
 	u := t.Underlying().(*types.Struct)
 	s := c.sortOf(t)
+	// accessor applied to a constructor term: pick the argument
+	if prefix := "(mk!" + string(s) + " "; strings.HasPrefix(v.S, prefix) {
+		k := len(prefix)
+		for j := 0; ; j++ {
+			for k < len(v.S) && v.S[k] == ' ' {
+				k++
+			}
+			if k >= len(v.S) || v.S[k] == ')' {
+				break
+			}
+			e := k
+			if v.S[k] == '(' {
+				e = skipSexp(v.S, k)
+			} else {
+				for e < len(v.S) && v.S[e] != ' ' && v.S[e] != ')' {
+					e++
+				}
+			}
+			if j == i {
+				return mk(c.sortOf(u.Field(i).Type()), v.S[k:e])
+			}
+			k = e
+		}
+	}
+	// known definitions: v is a symbol defined as a constructor term
+	if d, ok := c.ctorDefs[v.S]; ok {
+		return c.structField(t, d, i)
+	}
 	return app(c.sortOf(u.Field(i).Type()), fieldAccessor(s, i, u), v)
 }
 
